@@ -76,6 +76,7 @@ def run(ctx):
            "update_cell_value_shrink frees bytes without accounting them", u.loc())
     leaf_chain_splice(ctx)
     prefix_equal_needs_full_compare(ctx)
+    init_only_for_new_pages(ctx)
 
 
 def count_delta(f, delta):
@@ -191,3 +192,28 @@ def prefix_equal_needs_full_compare(ctx):
                "%s can choose a side on equal 4-byte prefixes without comparing the full separator: a key that differs from the separator only in "
                "trailing zero bytes (or length) is routed to the wrong child" % short, pc.loc())
     ctx.floor("P6.find_child_impls", n, 2)
+
+
+def init_only_for_new_pages(ctx):
+    """P7 INIT-WHO: LeafNodeMut::init / InteriorNodeMut::init rewrite the whole header — cell count, free pointers *and the
+    next-leaf / right-child link*.  They are for pages that are being created (tree creation, split, new root).  Calling them on a
+    page that is already linked into the tree (from compact, delete or update paths) cuts the leaf chain or drops a subtree."""
+    m = ctx.m
+    allowed = ("btree::tree::BTree::<'a, S>::create", "btree::tree::BTree::<'a, S>::split_leaf", "btree::tree::BTree::<'a, S>::create_new_root",
+               "btree::tree::BTree::<'a, S>::split_interior")
+    n = 0
+    bad = []
+    for f in m.fns.values():
+        for c in f.calls:
+            if c.name in (L + "init", I + "init"):
+                n += 1
+                host = f.id if f.kind != "closure" else f.id.rsplit("::{closure", 1)[0]
+                if host not in allowed and not host.startswith("database::") and not host.startswith("storage::"):
+                    bad.append((host, c))
+                elif host not in allowed and (host.startswith("btree::leaf::") or host.startswith("btree::interior::")):
+                    bad.append((host, c))
+    bad = [(h, c) for h, c in bad if h.startswith("btree::")]
+    ctx.ob("P7.INIT-WHO", "LeafNodeMut::init / InteriorNodeMut::init", not bad and n >= 4,
+           "node init is called only where a page is created (%d site(s))" % n if not bad else
+           "%s re-initialises a page that is already part of the tree: init also zeroes the next-leaf / right-child link, so the leaf chain is "
+           "cut (or a subtree dropped) behind this page" % bad[0][0], bad[0][1].loc() if bad else "src/btree/leaf.rs")
